@@ -90,6 +90,10 @@ pub struct RunCfg {
     /// the session's input type is an enum whose serialised size depends on the value (4/5/8 bytes)
     #[serde(default)]
     pub variable_size_input: bool,
+    /// the game keeps its own snapshots: it saves `None` data (with a checksum) into the cells
+    /// and restores from the frame number of the load request, as bevy_ggrs-style games do
+    #[serde(default)]
+    pub own_snapshots: bool,
 }
 
 #[derive(Serialize, Deserialize, Clone, Copy, Debug, PartialEq, Eq)]
@@ -289,6 +293,9 @@ pub enum InputMutation {
     /// 2 = not an encoding at all) that carries an acknowledgement `ack_delta` frames beyond the
     /// genuine one and, optionally, a connection status declaring a player disconnected: a
     /// dropped packet must not be half applied
+    /// a negative start frame followed by `extra` more well-formed frames than the genuine packet
+    /// had, so that the numbering can cross frame 0
+    NegativeStartLong { start: i32, extra: u8 },
     Piggyback { garbage: u8, ack_delta: i32, disconnect_player: Option<usize>, last_frame: i32 },
 }
 
